@@ -100,7 +100,7 @@ def impl(case):
         from click.testing import CliRunner
         from haptools.__main__ import main
 
-        args = ["simgenotype", "--model", str(d / "model.dat"), "--mapdir", str(d / "maps"), "--chroms", ",".join(chroms), "--popsize", str(case["popsize"]), "--seed", str(case["seed"] % 2**32), "--only_breakpoint", "--out", str(out) + ".vcf", "--ref_vcf", "x.vcf", "--sample_info", "x.tab"]
+        args = ["simgenotype", "--model", str(d / "model.dat"), "--mapdir", str(d / "maps"), "--chroms", ",".join(chroms), "--popsize", str(case["popsize"]), "--seed", str(case["seed"] % 2**32), "--only_breakpoint", "--out", str(out) + (".vcf", ".vcf.gz", ".bcf", ".pgen")[case["seed"] % 4], "--ref_vcf", "x.vcf", "--sample_info", "x.tab"]
         if case["region"]:
             args += ["--region", f"{case['region']['chr']}:{case['region']['start']}-{case['region']['end']}"]
         r = CliRunner().invoke(main, args, catch_exceptions=True)
@@ -252,8 +252,10 @@ def oracle(case, obs):
     for si, (name, strands) in enumerate(rb.items()):
         for k2 in (0, 1):
             blocks = lines[bounds[2 * si + k2] + 1 : bounds[2 * si + k2 + 1]]
-            want = [(b[0], b[1], int(b[2]), float(b[3])) for b in blocks]
-            if [tuple(x) for x in strands[k2]] != want:
+            # the reader keeps population labels in a six-character field (C05 states its range as labels of up to six characters):
+            # what is compared for longer labels is what the reader can hold of them, the file itself is judged in full above
+            want = [(b[0][:6], b[1], int(b[2]), float(b[3])) for b in blocks]
+            if [(x[0][:6], *x[1:]) for x in strands[k2]] != want:
                 return f"Breakpoints.load returns {strands[k2]} for {name}_{k2+1}, the file says {want}"
     rk = obs["readers"]["karyogram"]
     if isinstance(rk, dict) or len(rk) != 2:
@@ -293,7 +295,7 @@ CHECK = Check(
             setup=setup,
             teardown=teardown,
             nontrivial=lambda c, o: C.jdump(c) if isinstance(o, dict) and "lines" in o and len(o["lines"]) > 2 * c["model"][0] * (1 + (1 if c["region"] else len(c["chroms"]))) else None,
-            rule="the model/map/region generator of C01 (1-4 generation lines incl. zero fractions and pulses, 2-4 source populations, 1-4 chromosomes incl. X, 2-10 markers, optional region, 1-5 samples), through simulate_gt + write_breakpoints (a third of the whole-chromosome cases after an earlier --region simulation on the same map files in the same process; every 3rd case through the `simgenotype --only_breakpoint` CLI, with --popsize values below, at and above twice the sample count); the .bp text is checked clause by clause (order of chromosomes, strictly increasing bp ends, sentinel, non-decreasing cM, labels subset of contributing populations, Sample_i_1/_2 framing), read with Breakpoints.load and karyogram.GetHaplotypeBlocks, and compared with the rendering of the recorded simulated haplotypes drawn by the recorded index tape; for instrumented runs the decoded tapes of all generations are run through Plan.simulateAll (the function C02.every_haplotype_tiles / cm_never_decreases / labels_are_sources are about) and the file must be the rendering of the model's final generation at the drawn indices; the map hypotheses of cm_never_decreases (events close at map markers) are checked on every recorded tape; non-trivial = some haplotype has a recombination breakpoint",
+            rule="the model/map/region generator of C01 (1-4 generation lines incl. zero fractions and pulses, 2-4 source populations, 1-4 chromosomes incl. X, 2-10 markers, optional region, 1-5 samples), through simulate_gt + write_breakpoints (a third of the whole-chromosome cases after an earlier --region simulation on the same map files in the same process; every 3rd case through the `simgenotype --only_breakpoint` CLI (--out ending in .vcf, .vcf.gz, .bcf or .pgen: the breakpoints go to the name without that ending), with --popsize values below, at and above twice the sample count); the .bp text is checked clause by clause (order of chromosomes, strictly increasing bp ends, sentinel, non-decreasing cM, labels subset of contributing populations, Sample_i_1/_2 framing), read with Breakpoints.load and karyogram.GetHaplotypeBlocks, and compared with the rendering of the recorded simulated haplotypes drawn by the recorded index tape; for instrumented runs the decoded tapes of all generations are run through Plan.simulateAll (the function C02.every_haplotype_tiles / cm_never_decreases / labels_are_sources are about) and the file must be the rendering of the model's final generation at the drawn indices; the map hypotheses of cm_never_decreases (events close at map markers) are checked on every recorded tape; non-trivial = some haplotype has a recombination breakpoint",
         ),
         Section(
             name="fine_scale_maps_and_cut_fractions",
